@@ -211,6 +211,20 @@ def body(c):
             other = make(w, c)
             if vspace(other) == vs:
                 probs.append(("space_neq", f"different structure/shape/dtype compare equal: {w} vs {struct}"))
+        # the space of a value is a function of what the value is NOW: a container changed in place between two consecutive lookups
+        if isinstance(x, (list, dict)):
+            import copy
+
+            m = copy.deepcopy(x)
+            first = vspace(m)
+            if isinstance(m, list):
+                m.append(0.25)
+            else:
+                m["zz_new"] = onp.array([1.0, 2.0])
+            again = vspace(m)
+            fresh = vspace(copy.deepcopy(m))
+            if not (again == fresh) or again == first or again.size != fresh.size:
+                probs.append(("stale_space", "vspace(value) after an in-place change of the container is not the space of the changed value"))
     except Exception as e:
         if not from_autograd(e):
             raise
